@@ -50,11 +50,19 @@ class Machine:
         self.maxsteps = maxsteps
         self.trace = []
         self.consts_read = []
+        self.generics = {}      # const generic parameter name -> concrete value (one instantiation per evaluation)
 
     # ---- memory
     def load(self, ptr, nbytes):
+        if isinstance(ptr, tuple) and ptr and ptr[0] == "aslice":
+            ptr = ("eptr", ptr[1], ptr[2], 8)
+        if isinstance(ptr, tuple) and ptr and ptr[0] == "eptr":
+            cont, off, w = ptr[1], ptr[2], ptr[3]
+            if (off * 8) % w or (nbytes * 8) % w:
+                raise Unsupported("unaligned element load")
+            return cat(self.scalar_bits(cont[off * 8 // w + k], w) for k in range(nbytes * 8 // w))
         if not (isinstance(ptr, tuple) and ptr[0] == "ptr"):
-            raise Unsupported("load through %r" % (ptr,))
+            raise Unsupported("load through %r" % (str(ptr)[:80],))
         base, off = ptr[1], ptr[2]
         got = []
         for k in range(nbytes):
@@ -71,8 +79,17 @@ class Machine:
         return out
 
     def store(self, ptr, bits):
+        if isinstance(ptr, tuple) and ptr and ptr[0] == "aslice":
+            ptr = ("eptr", ptr[1], ptr[2], 8)
+        if isinstance(ptr, tuple) and ptr and ptr[0] == "eptr":
+            cont, off, w = ptr[1], ptr[2], ptr[3]
+            if (off * 8) % w or len(bits) % w:
+                raise Unsupported("unaligned element store")
+            for k, l in enumerate(lanes(bits, w)):
+                cont[off * 8 // w + k] = l
+            return
         if not (isinstance(ptr, tuple) and ptr[0] == "ptr"):
-            raise Unsupported("store through %r" % (ptr,))
+            raise Unsupported("store through %r" % (str(ptr)[:80],))
         base, off = ptr[1], ptr[2]
         for k in range(len(bits) // 8):
             self.stores[(base, off + k)] = bits[8 * k: 8 * k + 8]
@@ -114,7 +131,7 @@ class Machine:
                 if isinstance(v, bool):
                     v = int(v)
                 if not isinstance(v, int):
-                    raise Unsupported("branch on symbolic value in %s bb%d" % (fn.path, b))
+                    v = self.sym_branch(fn, b, v)
                 tgt = t[3]
                 for val, bb in t[2]:
                     if val == v:
@@ -122,6 +139,20 @@ class Machine:
                 b = tgt
             else:
                 raise Unsupported("terminator %s" % k)
+
+    def sym_branch(self, fn, b, v):
+        """a branch on a symbolic 1-bit condition: the harness decides which case is explored (branch_oracle gets the
+        condition atom with negations stripped) and checks afterwards that the condition is the specified one"""
+        orc = getattr(self, "branch_oracle", None)
+        if orc is None or not (isinstance(v, tuple) and len(v) == 1 and isinstance(v[0], tuple)):
+            raise Unsupported("branch on symbolic value in %s bb%d" % (fn.path, b))
+        bit = v[0]
+        neg = 0
+        if bit[0] >= 0:
+            d = self.B.defs[bit[0]]
+            if d[0] == "lin" and len(d[2]) == 1 and d[3] == 1:
+                bit, neg = d[2][0], 1
+        return int(orc((bit,))) ^ neg
 
     def assign(self, fn, env, place, v):
         l, projs = place
@@ -133,8 +164,11 @@ class Machine:
             if isinstance(p, tuple) and p[0] == "lref":
                 p[1][p[2]] = v
                 return
-            if isinstance(p, tuple) and p[0] == "ptr" and isinstance(v, tuple) and v and isinstance(v[0], tuple):
+            if isinstance(p, tuple) and p[0] in ("ptr", "eptr", "aslice") and isinstance(v, tuple) and v and isinstance(v[0], tuple):
                 self.store(p, v)
+                return
+            if isinstance(p, tuple) and p[0] in ("ptr", "eptr", "aslice") and isinstance(v, dict) and all(isinstance(x, tuple) and x and isinstance(x[0], tuple) for x in v.values()):
+                self.store(p, cat(v[i] for i in range(len(v))))
                 return
         p0 = env.get(l)
         if isinstance(p0, tuple) and p0 and p0[0] == "ptr" and projs[0] == "*" and len(projs) == 2 and projs[1][0] in ("i", "c"):
@@ -188,6 +222,10 @@ class Machine:
             if isinstance(cur, tuple) and cur and cur[0] == "lref":
                 return cur[1][cur[2]]
             return cur
+        if p[0] == "d":
+            if isinstance(cur, tuple) and cur and cur[0] == "opt":
+                return cur[2]
+            return cur
         k = self.pkey(fn, env, p)
         if isinstance(cur, tuple) and cur and cur[0] == "aslice":
             return cur[1][cur[2] + k]
@@ -225,6 +263,8 @@ class Machine:
         if op[0] == "k":
             d = op[1]
             v = d.get("v")
+            if "param" in d and d["param"] in self.generics:
+                return self.generics[d["param"]]
             if isinstance(v, bool):
                 return v
             if isinstance(v, int):
@@ -355,6 +395,17 @@ class Machine:
             r = B.sub(x, y)
             if wo:
                 self.trace.append(("checked-sub-assumed-no-overflow",))
+        elif op in ("Eq", "Ne"):
+            r = B.pred("eq", x, y)
+            if op == "Ne":
+                r = B.not_(r)
+            return r
+        elif op in ("Lt", "Gt", "Le", "Ge"):
+            p, q = (x, y) if op in ("Lt", "Ge") else (y, x)
+            r = B.pred("ult", p, q)
+            if op in ("Ge", "Le"):
+                r = B.not_(r)
+            return r
         else:
             raise Unsupported("symbolic scalar op %s" % op)
         return {0: r, 1: False} if wo else r
@@ -371,6 +422,10 @@ class Machine:
             sz = {"core::arch::x86_64::__m128i": 16, "core::arch::x86_64::__m256i": 32, "u8": 1, "u32": 4, "u64": 8}.get(c.ga[0])
             if sz is None or not isinstance(a[1], int):
                 raise Unsupported("ptr.add on %s" % c.ga)
+            if a[0][0] == "eptr":
+                return ("eptr", a[0][1], a[0][2] + sz * a[1], a[0][3])
+            if a[0][0] == "aslice":
+                return ("eptr", a[0][1], a[0][2] + sz * a[1], 8)
             return ("ptr", a[0][1], a[0][2] + sz * a[1])
         if short == "align_offset" and isinstance(a[0], tuple) and a[0][0] == "ptr" and isinstance(a[1], int):
             # the bases handed to the machine are declared aligned by the caller (C16 layout rule: repr(align(32)))
@@ -541,6 +596,8 @@ class Machine:
                     self.write_bytes(a[0], i * nbytes, bits)
             self.trace.append(("summary", nm))
             return None
+        if mir_index(nm) and isinstance(a[0], dict) and isinstance(a[1], dict) and all(isinstance(k, int) for k in a[0]):
+            a = [("aslice", a[0], 0, len(a[0])), a[1]]
         if mir_index(nm) and isinstance(a[0], tuple) and a[0] and a[0][0] in ("lref", "aslice", "ptr") and isinstance(a[1], dict):
             r = a[1]
             if a[0][0] == "ptr":
@@ -573,7 +630,16 @@ class Machine:
             return None
         if re.search(r"slice::<impl \[T\]>::len$", nm):
             return self.seq(a[0])[2]
-        if re.search(r"slice::<impl \[T\]>::as_(mut_)?ptr$", nm):
+        if re.search(r"(slice::<impl \[T\]>|array::<impl \[T; N\]>)::as_(mut_)?ptr$", nm) or re.search(r"slice::<impl \[T\]>::as_(mut_)?ptr$", nm):
+            x = a[0]
+            if isinstance(x, tuple) and x and x[0] == "lref":
+                x = x[1][x[2]]
+            mm = re.match(r"^[ui](\d+)$", (c.ga or [""])[0])
+            if isinstance(x, dict) and mm:
+                return ("eptr", x, 0, int(mm.group(1)))
+            if isinstance(x, tuple) and x and x[0] == "aslice" and mm:
+                w = int(mm.group(1))
+                return ("eptr", x[1], x[2] * (w // 8), w)
             return a[0]
         if re.search(r" as core::cmp::PartialEq>::eq$", nm):
             vals = []
@@ -586,6 +652,60 @@ class Machine:
             if all(isinstance(x, int) for x in vals):
                 return vals[0] == vals[1]
             raise Unsupported("eq on symbolic values")
+        mm = re.search(r"TryFrom<&'a (mut )?\[T\]> for &'a (mut )?\[T; N\]>::try_from$", nm) or re.search(r"TryFrom<&\[T\]> for \[T; N\]>::try_from$", nm) or (short == "try_into" and re.search(r"TryInto<", nm))
+        if mm:
+            cont, base, n = self.seq(a[0]) if not (isinstance(a[0], tuple) and a[0] and a[0][0] == "ptr") else (None, a[0][2], None)
+            want = [int(x) for x in (c.ga or []) if isinstance(x, str) and re.match(r"^\d+$", x)]
+            if not want:
+                mt = re.search(r"\[[ui]\d+; (\d+)\]", " ".join(str(x) for x in (c.ga or [])))
+                want = [int(mt.group(1))] if mt else []
+            if cont is None:
+                if not want:
+                    raise Unsupported("try_from on a raw window of unknown length")
+                return ("opt", 0, {0: a[0]})
+            if want and want[0] != n:
+                return ("opt", 1, {0: None})
+            copy = bool(re.search(r"for \[T; N\]>::try_from$", nm)) or (short == "try_into" and not re.search(r"&'?\w* ?(mut )?\[[ui]\d+; \d+\]", str((c.ga or ["", ""])[-1])))
+            if copy:
+                return ("opt", 0, {0: {i: cont[base + i] for i in range(n)}})
+            return ("opt", 0, {0: ("aslice", cont, base, base + n)})
+        if re.search(r"(result::Result::<T, E>|option::Option::<T>)::(unwrap|expect)$", nm):
+            v = a[0]
+            if isinstance(v, tuple) and v and v[0] == "opt":
+                okdisc = 0 if "Result" in nm else 1
+                if v[1] != okdisc:
+                    raise Unsupported("unwrap of Err/None: the call panics on this input shape")
+                return v[2][0]
+            raise Unsupported("unwrap of %r" % (str(v)[:40],))
+        mm = re.match(r"^core::num::<impl ([ui])(\d+)>::(from|to)_(le|be|ne)_bytes$", nm)
+        if mm:
+            w = int(mm.group(2))
+            if mm.group(3) == "from":
+                x = a[0]
+                if isinstance(x, tuple) and x and x[0] == "lref":
+                    x = x[1][x[2]]
+                if isinstance(x, tuple) and x and x[0] in ("ptr", "eptr"):
+                    by = lanes(self.load(x, w // 8), 8)
+                    n = w // 8
+                else:
+                    cont, base, n = self.seq(x)
+                    by = [self.scalar_bits(cont[base + i], 8) for i in range(n)]
+                if n * 8 != w:
+                    raise Unsupported("from_bytes of %d bytes" % n)
+                if mm.group(4) == "be":
+                    by = by[::-1]
+                return cat(by)
+            by = lanes(self.scalar_bits(a[0], w), 8)
+            if mm.group(4) == "be":
+                by = by[::-1]
+            return {i: by[i] for i in range(len(by))}
+        mm = re.match(r"^core::num::<impl ([ui])(\d+)>::overflowing_(add|sub)$", nm)
+        if mm:
+            w = int(mm.group(2))
+            x, y = self.scalar_bits(a[0], w), self.scalar_bits(a[1], w)
+            if mm.group(3) == "add":
+                return {0: B.add(x, y), 1: B.pred("carry", x, y)}
+            return {0: B.sub(x, y), 1: B.pred("borrow", x, y)}
         if nm.endswith("IntoIterator>::into_iter") or short == "into_iter":
             return a[0]
         if re.search(r"Iterator for core::ops::Range<A>>::next$", nm) and isinstance(a[0], tuple) and a[0][0] == "lref":
@@ -604,7 +724,9 @@ class Machine:
             return cont, 0, len(cont)
         if isinstance(ref, tuple) and ref and ref[0] == "aslice":
             return ref[1], ref[2], ref[3] - ref[2]
-        raise Unsupported("sequence %r" % (ref[:1] if isinstance(ref, tuple) else ref,))
+        if isinstance(ref, dict):
+            return ref, 0, len(ref)
+        raise Unsupported("sequence %r" % (ref[:1] if isinstance(ref, tuple) else str(ref)[:60],))
 
     def elem(self, ref, i, w):
         if isinstance(ref, tuple) and ref and ref[0] == "ptr":
